@@ -299,37 +299,7 @@ func (s *Sim) IterStep(i int) {
 	live := s.liveIters(t)
 	switch x := s.Rng.IntN(100); {
 	case x < 15 || len(live) == 0:
-		// create in a transaction of its own
-		if len(t.iters) >= 4 {
-			return
-		}
-		// (own DB handle: the tracker's later Close() commits under this name, so it can be paused without catching the collector)
-		wtxn := s.DB.NewHandle(s.Handle + "-it").WriteTxn(t.tbl)
-		s.open = wtxn
-		it, err := t.tbl.Changes(wtxn)
-		if err != nil {
-			wtxn.Abort()
-			s.Violate("changes", "changes-error", "%s: Changes returned %v", what, err)
-			return
-		}
-		s.iterSeq++
-		si := &simIter{name: fmt.Sprintf("%s#%d", t.name, s.iterSeq), it: it, table: t, creationRev: t.committed.Rev, createdIn: what,
-			replay: map[string]Obs{}, gotDelete: map[string][]uint64{}, ownHandle: true}
-		if s.Rng.IntN(6) == 0 {
-			s.Logf("%s %s.Changes() in a transaction that aborts", what, t.name)
-			wtxn.Abort()
-			s.zombies = append(s.zombies, it) // dropped, not closed
-		} else {
-			s.Logf("%s %s.Changes() -> %s", what, t.name, si.name)
-			wtxn.Commit()
-			si.committed = true
-			t.iters = append(t.iters, si)
-			t.settled = false
-		}
-		s.open = nil
-		if rt := s.DB.ReadTxn(); t.tbl.Revision(rt) != t.committed.Rev {
-			s.Violate("rev", "tracker-commit-changed-revision", "%s: creating a change iterator changed the revision of %s to %d (model %d)", what, t.name, t.tbl.Revision(rt), t.committed.Rev)
-		}
+		s.createIter(what, t)
 	case x < 75:
 		it := live[s.Rng.IntN(len(live))]
 		// fresh snapshot, or an older retained one (monotone)
@@ -477,5 +447,39 @@ func (s *Sim) CloseIterators() {
 			it.it.Close()
 		}
 		t.iters = nil
+	}
+}
+
+// createIter creates a change iterator on t in a write transaction of its own (sometimes one that aborts).
+func (s *Sim) createIter(what string, t *simTable) {
+	if len(t.iters) >= 4 {
+		return
+	}
+	// (own DB handle: the tracker's later Close() commits under this name, so it can be paused without catching the collector)
+	wtxn := s.DB.NewHandle(s.Handle + "-it").WriteTxn(t.tbl)
+	s.open = wtxn
+	it, err := t.tbl.Changes(wtxn)
+	if err != nil {
+		wtxn.Abort()
+		s.Violate("changes", "changes-error", "%s: Changes returned %v", what, err)
+		return
+	}
+	s.iterSeq++
+	si := &simIter{name: fmt.Sprintf("%s#%d", t.name, s.iterSeq), it: it, table: t, creationRev: t.committed.Rev, createdIn: what,
+		replay: map[string]Obs{}, gotDelete: map[string][]uint64{}, ownHandle: true}
+	if s.Rng.IntN(6) == 0 {
+		s.Logf("%s %s.Changes() in a transaction that aborts", what, t.name)
+		wtxn.Abort()
+		s.zombies = append(s.zombies, it) // dropped, not closed
+	} else {
+		s.Logf("%s %s.Changes() -> %s", what, t.name, si.name)
+		wtxn.Commit()
+		si.committed = true
+		t.iters = append(t.iters, si)
+		t.settled = false
+	}
+	s.open = nil
+	if rt := s.DB.ReadTxn(); t.tbl.Revision(rt) != t.committed.Rev {
+		s.Violate("rev", "tracker-commit-changed-revision", "%s: creating a change iterator changed the revision of %s to %d (model %d)", what, t.name, t.tbl.Revision(rt), t.committed.Rev)
 	}
 }
